@@ -60,6 +60,7 @@ type lcClient struct {
 	offClosed map[net.Conn]bool
 	ReqSeen  []time.Duration
 	natSids  int
+	NatSidList []string // session ids handed to this client's xtcp proxies
 	HTTPSeen []httpSeen // requests the http responder of this client saw
 	SilentUnknown bool // work connections for proxies this client did not record are drained silently
 	WorkFrames []RecvMsg // first frame received on each work connection
@@ -162,8 +163,11 @@ func (c *lcClient) runWork(conn net.Conn) {
 	}
 	if err == nil && typ0 == tNatHoleSid {
 		// an xtcp proxy's owner is handed a session id over a work connection
+		sm := M{}
+		json.Unmarshal(body0, &sm)
 		c.smu.Lock()
 		c.natSids++
+		c.NatSidList = append(c.NatSidList, mstr(sm, "sid"))
 		c.smu.Unlock()
 		conn.Close()
 		return
@@ -226,6 +230,19 @@ func (c *lcClient) runWork(conn net.Conn) {
 			body := "served-by " + id + " " + reqLine + "\n"
 			fmt.Fprintf(conn, "HTTP/1.1 200 OK\r\nContent-Type: text/plain\r\nX-Served-By: %s\r\nContent-Length: %d\r\n\r\n%s", id, len(body), body)
 		}
+	case "xtcp":
+		// the owner of an xtcp proxy is handed the session id right after the start message
+		typ1, body1, err := readFrame(conn)
+		if err == nil && typ1 == tNatHoleSid {
+			sm := M{}
+			json.Unmarshal(body1, &sm)
+			c.smu.Lock()
+			c.natSids++
+			c.NatSidList = append(c.NatSidList, mstr(sm, "sid"))
+			c.WorkFrames = append(c.WorkFrames, RecvMsg{Type: typ1, Body: body1, At: c.w.Net.Now()})
+			c.smu.Unlock()
+		}
+		return
 	case "udp", "sudp":
 		// datagram work connection: frames only; stay silent and drain
 		for {
